@@ -81,6 +81,8 @@ def rand_pack(rng, cls=None, allow_iterative=True, allow_prefix_ver=True, allow_
     o["iterative"] = bool(allow_iterative and rng.random() < 0.15)
     o["plus"] = rng.random() < 0.35
     o["swap"] = rng.random() < 0.3
+    # several rules per class: two-step expansions next to the plain one
+    o["twice"] = rng.choice(([], [], [], [], [], [0], [1], [0, 1]))
     return o
 
 
